@@ -457,6 +457,9 @@ class Solver(object):
         # integrate with.
         self.dt = self._get_timestep()
 
+        # The first step must not jump over a requested output time either.
+        self._limit_dt_to_output_times()
+
         while (self.tf - self.t) > self._epsilon and \
               (self.count < self.max_steps):
 
@@ -719,6 +722,21 @@ class Solver(object):
             if numpy.any(numpy.abs(tdiff) < self._epsilon):
                 dump = True
 
+            self._limit_dt_to_output_times()
+
+        if dump:
+            self.dump_output()
+            self.barrier()
+
+    def _limit_dt_to_output_times(self):
+        """Shorten `dt` so the next step lands on a requested output time
+        instead of stepping over it.
+        """
+        output_at_times = self.output_at_times
+        dt = self.dt
+        if len(output_at_times) > 0:
+            tdiff = output_at_times - self.t
+
             # Our next step may exceed a required timestep so we adjust the
             # timestep.
             timestep_too_big = (tdiff > 0.0) & (tdiff < dt)
@@ -739,10 +757,6 @@ class Solver(object):
                     # time instant and save the previous dt value.
                     self._prev_dt = dt
                     self.dt = float(output_time - self.t)
-
-        if dump:
-            self.dump_output()
-            self.barrier()
 
     def _get_solver_data(self):
         if self._prev_dt is not None:
